@@ -935,6 +935,19 @@ func (e *SpecEnv) call(n *SCall) Val {
 			return Ptr{s.Ref, s.Idx, t}
 		}
 		e.fail("unbox: interface value expected")
+	case "wrap":
+		// wrap(x): x reduced into the range of its own Go type (two's complement) - the value Go's wrapping arithmetic
+		// yields for the mathematical result x. Identity in bv mode, where spec arithmetic already wraps.
+		if len(n.Args) != 1 {
+			e.fail("wrap(x) expected")
+		}
+		if s, ok := e.eval(n.Args[0]).(Scalar); ok && isIntType(s.Ty) {
+			if c.mode == ModeBV {
+				return s
+			}
+			return Scalar{c.wrapInt(s.T, s.Ty), s.Ty}
+		}
+		e.fail("wrap(x): integer expected")
 	case "rawbytes":
 		// the in-memory bytes of an integer value as seen through an unsafe byte view (see evalConversion)
 		s, ok := e.eval(n.Args[0]).(Scalar)
